@@ -561,6 +561,7 @@ mod tm {
             }
             4 => V::Array(vec![V::String("s".into()), tab(vec![("x", V::Integer(1))])]),
             5 => V::Table(toml::Table::new()),
+            7 => V::Datetime("1979-05-27T07:32:00.5Z".parse().unwrap()),
             _ => V::Array(vec![]),
         }
     }
@@ -570,8 +571,8 @@ mod tm {
         let mut b = Blocks::new("tm.valuetree.decoded-sorted", dump);
         let keys = ["a", "b", "c"];
         let perms = [[0, 1, 2], [0, 2, 1], [1, 0, 2], [1, 2, 0], [2, 0, 1], [2, 1, 0]];
-        for a in 0..7usize.pow(3) {
-            let assign = [a % 7, (a / 7) % 7, (a / 49) % 7];
+        for a in 0..8usize.pow(3) {
+            let assign = [a % 8, (a / 8) % 8, (a / 64) % 8];
             for p in perms {
                 for depth in 0..2 {
                     let mut t = toml::Table::new();
